@@ -379,56 +379,6 @@ func hasSupplementary(s string) bool {
 	return false
 }
 
-// ---- models of the two known defects, used only to classify a mismatch ----
-
-// defectStringIndex: negative/zero hash-slice bounds resolved with the key's
-// length in UTF-8 bytes and characters indexed as code points (instead of
-// UTF-16 code units for both).
-func defectStringIndex(p *mycatref.String, s string) int {
-	r := []rune(s)
-	start, end := p.Start, p.End
-	if start < 0 {
-		start = len(s) + start
-	}
-	if end <= 0 {
-		end = len(s) + end
-	}
-	if start < 0 {
-		start = 0
-	}
-	if end > len(r) {
-		end = len(r)
-	}
-	var h int64
-	for i := start; i < end; i++ {
-		h = h*31 + int64(r[i])
-	}
-	return p.PartitionHash(h)
-}
-
-// defectMurmurHash: murmur3 fed with code points (int32) instead of UTF-16 code units.
-func defectMurmurHash(seed int32, s string) int32 {
-	r := []rune(s)
-	mixK := func(k uint32) uint32 { k *= 0xcc9e2d51; k = k<<15 | k>>17; return k * 0x1b873593 }
-	h := uint32(seed)
-	for i := 1; i < len(r); i += 2 {
-		k := uint32(r[i-1] | r[i]<<16)
-		h ^= mixK(k)
-		h = h<<13 | h>>19
-		h = h*5 + 0xe6546b64
-	}
-	if len(r)&1 == 1 {
-		h ^= mixK(uint32(r[len(r)-1]))
-	}
-	h ^= uint32(2 * len(r))
-	h ^= h >> 16
-	h *= 0x85ebca6b
-	h ^= h >> 13
-	h *= 0xc2b2ae35
-	h ^= h >> 16
-	return int32(h)
-}
-
 // ---------- the property ----------
 
 type murmurParams struct {
@@ -567,8 +517,7 @@ func checkCase(c08 c08Case) (o pbt.Outcome) {
 		}
 	}
 
-	var unclassified, classified []string
-	knownID := ""
+	var unclassified []string
 	for _, k := range c.Keys {
 		text := k.text()
 		// reference placement
@@ -638,33 +587,8 @@ func checkCase(c08 c08Case) (o pbt.Outcome) {
 		if fail == "" {
 			continue
 		}
-		// ---- classification: only failures that reproduce a known root cause exactly ----
-		id := ""
-		switch {
-		case c.Rule == "mycat_mod" && (text == "-9223372036854775808" || text == "-09223372036854775808") &&
-			got == int(math.MinInt64%int64(n)) && got < 0:
-			// hack.Abs(MinInt64) is still negative: index = MinInt64 % n (Go remainder, negative)
-			id = "C08-F1"
-		case c.Rule == "mycat_string" && !isASCII(text) && !hasSupplementary(text) &&
-			(refString.Start < 0 || refString.End < 0) && crash == "" && rejected == "" && got == defectStringIndex(refString, text):
-			// BMP multi-byte key, negative bound: len(key) in bytes instead of UTF-16 units
-			id = "C08-F2"
-		case c.Rule == "mycat_string" && hasSupplementary(text) && crash == "" && rejected == "" && got == defectStringIndex(refString, text):
-			// surrogate pairs counted/indexed as one character
-			id = "C08-F3"
-		case c.Rule == "mycat_murmur" && hasSupplementary(text) && crash == "" && rejected == "" &&
-			got == refMur.Locate(defectMurmurHash(seed, text)):
-			id = "C08-F3"
-		}
-		if id == "" {
-			unclassified = append(unclassified, fail)
-		} else {
-			classified = append(classified, "["+id+"] "+fail)
-			if knownID == "" {
-				knownID = id
-			}
-			o.Labels = append(o.Labels, "known_"+id)
-		}
+		// no finding of this property is open: every disagreement is a violation
+		unclassified = append(unclassified, fail)
 	}
 	if len(unclassified) > 0 {
 		o.Violation = unclassified[0]
@@ -672,10 +596,6 @@ func checkCase(c08 c08Case) (o pbt.Outcome) {
 			o.Violation += fmt.Sprintf(" (+%d more keys of this case)", len(unclassified)-1)
 		}
 		return
-	}
-	if knownID != "" {
-		o.Known = knownID
-		o.KnownWhat = classified[0]
 	}
 	return
 }
